@@ -791,7 +791,7 @@ fn history_pass(acc: &mut Acc) {
 
 fn source_scan() -> Vec<String> {
     let mut out = Vec::new();
-    let mut stack = vec![std::path::PathBuf::from("/repo/src")];
+    let mut stack = vec![std::path::PathBuf::from(format!("{}/src", crate::fw::repo_dir()))];
     let mut counts = std::collections::BTreeMap::new();
     while let Some(p) = stack.pop() {
         if let Ok(rd) = std::fs::read_dir(&p) {
